@@ -149,7 +149,7 @@ var specs = []*PropSpec{
 	},
 	{
 		ID: "C12",
-		Cfg: Config{Property: "C12", Assert: asserts("insert", "delete", "search", "all", "backward", "min", "max", "topk", "bottomk", "size", "shape", "twin"),
+		Cfg: Config{Property: "C12", CallUndefined: true, Assert: asserts("insert", "delete", "search", "all", "backward", "min", "max", "topk", "bottomk", "size", "shape", "twin"),
 			AuditOps: []string{"scan", "shape"}, AuditEvery: 7, ExcludeKF: true, Census: true, Twin: true},
 		Mix: withMix(baseMix, func(m *Mix) {
 			m.BulkInsert, m.BulkDelete, m.DeleteAll = 8, 8, 3
@@ -179,7 +179,7 @@ var specs = []*PropSpec{
 	},
 	{
 		ID:  "C15",
-		Cfg: Config{Property: "C15", Assert: asserts(), ExcludeKF: true, Bracket: true, Census: true},
+		Cfg: Config{Property: "C15", CallUndefined: true, Assert: asserts(), ExcludeKF: true, Bracket: true, Census: true},
 		Mix: withMix(baseMix, func(m *Mix) {
 			m.SearchAbsent, m.SearchPresent, m.DeleteAbsent, m.Overwrite = 6, 4, 8, 5
 			m.Range, m.Prefix, m.TopBottom, m.Extremes, m.Scan, m.Size, m.Iter = 3, 3, 2, 2, 2, 1, 3
@@ -192,7 +192,7 @@ var specs = []*PropSpec{
 	},
 	{
 		ID: "C13",
-		Cfg: Config{Property: "C13", Assert: asserts("arena", "search", "all", "backward"),
+		Cfg: Config{Property: "C13", CallUndefined: true, Assert: asserts("arena", "search", "all", "backward"),
 			AuditOps: []string{"scan", "sweep"}, AuditEvery: 3, ExcludeKF: true, Arena: true},
 		Mix: withMix(baseMix, func(m *Mix) {
 			m.Range, m.Prefix = 4, 4
@@ -213,7 +213,7 @@ var specs = []*PropSpec{
 	},
 	{
 		ID: "C18",
-		Cfg: Config{Property: "C18", Assert: asserts("search", "all", "backward", "range", "gccheck"),
+		Cfg: Config{Property: "C18", CallUndefined: true, Assert: asserts("search", "all", "backward", "range", "gccheck"),
 			AuditOps: []string{"scan", "sweep", "gccheck"}, AuditEvery: 9, ExcludeKF: true},
 		Mix:       withMix(baseMix, func(m *Mix) { m.GC = 6; m.Range = 2; m.Scan = 1 }),
 		Families:  allFamilies,
